@@ -22,7 +22,7 @@ RULE = ('cases: every non-wrapping grid shape with extents 0..N per axis (plus L
         'Non-trivial query: the ball is clipped by the grid on at least one side AND contains >= 2 cells; distinct by (shape, centre, '
         'radius, kind).')
 ASSUMPTIONS = ['exhaustive only for extents <= N', 'radius >= 0, centre inside the grid, wrap_env=False (as the property states)']
-FLOORS = {'quick': {'queries_with_an_unbounded_radius': 804, 'cases_in_mode_warnings': 6, 'cases_in_mode_optimised': 6, 'refused_queries': 33, 'radius_numpy_int': 4790, 'keyword_spelling': 9580, 'flag_int': 4790, 'flag_numpy_bool': 4790, 'queries': 56000, 'moore': 28000, 'neumann': 28000, 'center_as_id': 14000, 'center_as_tuple': 14000,
+FLOORS = {'quick': {'queries_of_an_expanding_search': 1274, 'queries_with_an_unbounded_radius': 804, 'cases_in_mode_warnings': 6, 'cases_in_mode_optimised': 6, 'refused_queries': 33, 'radius_numpy_int': 4790, 'keyword_spelling': 9580, 'flag_int': 4790, 'flag_numpy_bool': 4790, 'queries': 56000, 'moore': 28000, 'neumann': 28000, 'center_as_id': 14000, 'center_as_tuple': 14000,
                     'center_as_position': 14000, 'center_fractional': 14000, 'generic_entry': 28000, 'clipped_queries': 10000,
                     'shapes': 36, 'big_shapes': 2, 'big_queries': 600, 'big_balls_1024_plus': 40, 'non_cubic_shapes': 30, 'reach:Environments.DiscreteWorld.get_moore_neighbours': 28000,
                     'reach:Environments.DiscreteWorld.get_neumann_neighbours': 28000, 'reach:Environments.DiscreteWorld.get_neighbours': 28000},
